@@ -2230,6 +2230,49 @@ static Boolean SymbolAdder(PTree* PDest, PTree Neu, void* pData) {
     }
 }
 
+/*!------------------------------------------------------------------------
+ * \fn     ChkHidesUsedSymbol(PTree pRoot, char const *pName, LongInt Handle, Boolean InclHandle)
+ * \brief  a symbol is about to be created: does it hide a symbol of the same
+ *         name from an enclosing section that has already been referenced?
+ *         References made so far from inside the new symbol's scope were
+ *         resolved to that outer symbol (see "FORWARD" in the manual), so
+ *         another pass is needed to let them find the new one.
+ * \param  pRoot root of the (non-macro-local) symbol tree
+ * \param  pName name of new symbol (already case-converted)
+ * \param  Handle section the search starts from
+ * \param  InclHandle search section Handle itself or only its parents?
+ * ------------------------------------------------------------------------ */
+
+static void ChkHidesUsedSymbol(
+        PTree pRoot, char const* pName, LongInt Handle, Boolean InclHandle) {
+    PSymbolEntry pOuter;
+    PCToken      pSect;
+    LongInt      z;
+
+    while (True) {
+        if (InclHandle) {
+            pOuter = (PSymbolEntry)SearchTree(pRoot, (char*)pName, Handle);
+            if (pOuter) {
+                if (pOuter->Used) {
+                    Repass = True;
+                }
+                return;
+            }
+        }
+        if (Handle < 0) {
+            return;
+        }
+        for (pSect = FirstSection, z = 0; pSect && (z < Handle); z++) {
+            pSect = pSect->Next;
+        }
+        if (!pSect) {
+            return;
+        }
+        Handle     = pSect->Parent;
+        InclHandle = True;
+    }
+}
+
 static void EnterLocSymbol(PSymbolEntry Neu) {
     TEnterStruct EnterStruct;
     PTree        TreeRoot;
@@ -2237,6 +2280,9 @@ static void EnterLocSymbol(PSymbolEntry Neu) {
     Neu->Tree.Attribute = MomLocHandle;
     if (!CaseSensitive) {
         NLS_UpString(Neu->Tree.Name);
+    }
+    if (!SearchTree((PTree)FirstLocSymbol, Neu->Tree.Name, Neu->Tree.Attribute)) {
+        ChkHidesUsedSymbol((PTree)FirstSymbol, Neu->Tree.Name, MomSectionHandle, True);
     }
     EnterStruct.MayChange = EnterStruct.DoCross = FALSE;
     TreeRoot                                    = &FirstLocSymbol->Tree;
@@ -2315,6 +2361,9 @@ static void EnterSymbol(PSymbolEntry Neu, Boolean MayChange, LongInt ResHandle) 
                        Copy->SymWert.Contents.str.len
                        = Copy->SymWert.Contents.str.capacity = l);
             }
+            if (!SearchTree(TreeRoot, Copy->Tree.Name, Copy->Tree.Attribute)) {
+                ChkHidesUsedSymbol(TreeRoot, Copy->Tree.Name, Copy->Tree.Attribute, False);
+            }
             EnterTree(&TreeRoot, &(Copy->Tree), SymbolAdder, &EnterStruct);
         }
         if (Lauf) {
@@ -2327,6 +2376,9 @@ static void EnterSymbol(PSymbolEntry Neu, Boolean MayChange, LongInt ResHandle) 
             }
             free(Lauf);
         }
+    }
+    if (!SearchTree(TreeRoot, Neu->Tree.Name, Neu->Tree.Attribute)) {
+        ChkHidesUsedSymbol(TreeRoot, Neu->Tree.Name, Neu->Tree.Attribute, False);
     }
     EnterTree(&TreeRoot, &(Neu->Tree), SymbolAdder, &EnterStruct);
     FirstSymbol = (PSymbolEntry)TreeRoot;
